@@ -520,7 +520,7 @@ func (cc *checkCtx) writeEvidence(wall float64, status string) {
 		"missing_obligations":                   cc.missing,
 		"status":                                status,
 		"extraction_drops": []string{
-			"go statements, select and channel operations put a function outside the subset",
+			"select statements and conditional defers other than a single one put a function outside the subset; go statements, channels and WaitGroups are covered only by ghost counters with local non-blocking obligations (no schedule is explored)",
 			"float64 is modelled as mathematical Real",
 			"bodies of functions outside /repo are never entered (assumed contracts or havoc)",
 			"logging calls are no-ops",
